@@ -75,8 +75,9 @@ type Tally struct {
 }
 
 type obsEvent struct {
-	Unit map[string]any `json:"unit"`
-	Res  []obsRes       `json:"res"`
+	Unit   map[string]any `json:"unit"`
+	Res    []obsRes       `json:"res"`
+	GoType string         `json:"gotype"` // Go type of the field bound to property "x" ("" if none)
 }
 
 type obsRes struct {
@@ -381,6 +382,11 @@ func Observation(e *Exec) (*obsEvent, error) {
 		return nil, nil
 	}
 	ev := &obsEvent{Unit: e.Unit.Raw}
+	if e.Packed {
+		ev.GoType = e.Out.Types[fmt.Sprintf("s%d.x", e.Slot)]
+	} else {
+		ev.GoType = e.Out.Types["x"]
+	}
 	for _, r := range e.Out.Res {
 		or := obsRes{Err: r.Err, Panic: r.Panic, Unchanged: r.Unchanged, Val: abs.M{"t": "none"}}
 		if r.Out != "" {
